@@ -119,9 +119,8 @@ prop('C17', prefix=['c17'],
      outside='defined names (global / sheet-local), duplicate_sheet, other names and formulas')
 prop('C18', prefix=['c18'],
      bounds='one cell at a symbolic position holding one of: the numbers 1.5 / 123 / -0.25 / 1234567.5, TRUE, FALSE, the text abc, the quote-prefixed texts '
-            '123 / TRUE / #N/A / 1,5, an empty styled cell; default, bold or percent-formatted style; en and de locale (hand-built), en language; the same cells after one of TRUE / 12 / abc / \'x was typed over them (en)',
-     outside='other numbers (the float->text conversion is executed for concrete values only), dates and date formats, formulas, localized booleans/errors '
-             '(es/fr/de/it languages: the known VERDADERO defect lives there), UserModel wrappers')
+            '123 / TRUE / #N/A / 1,5, an empty styled cell; default, bold or percent-formatted style; en and de locale (hand-built), en language; the same cells after one of TRUE / 12 / abc / \'x was typed over them (en); the same cells re-entered in the display languages de / es / fr / it (real tables)',
+     outside='other numbers (the float->text conversion is executed for concrete values only), dates and date formats, formulas, UserModel wrappers')
 prop('C19', prefix=['c19'],
      bounds='parse_number: every ASCII string of length <=5 with . and , as separators, <=4 with , and . (<=7 thorough); parse_formatted_number: '
             'body%, $body, -$body, body$ and plain body for every printable-ASCII body (no white space, no /) of length <=3 (<=4 thorough), en separators, currency $',
